@@ -15,6 +15,8 @@ import oracles
 
 LEVEL = "proof"
 ATS = ["application/vnd.example.sbom", "application/vnd.example.sig", ""]
+# (artifact types are opaque strings compared as they are: letter case, parameters and blanks belong to them; config media types too)
+ODD = ["application/vnd.example.SBOM.v1+json", "application/vnd.example.sig; v=1", " application/vnd.example.sig", "Application/Vnd.Example.Config"]
 
 
 def ref_walk(repo, subject, flt=None):
@@ -80,12 +82,12 @@ class W7(gen.World):
     def artifact(self, repo, subject=None):
         rng = self.rng
         subject = subject or self.subject(repo)
-        at = rng.choice(ATS)
+        at = rng.choice(ATS) if rng.random() < 0.75 else rng.choice(ODD)
         ann = rng.choice([None, {"k": "v"}, {"org.example.note": "x" * rng.randrange(0, 120)}, {}])
         if rng.random() < 0.75:
             cfg = b"{}"
             self.ensure_blob(repo, cfg)
-            cmt = rng.choice([MT_EMPTY, MT_CFG, "application/vnd.example.config"])
+            cmt = rng.choice([MT_EMPTY, MT_CFG, "application/vnd.example.config", ODD[3]])
             # (the body's own mediaType field may be absent, or name the docker type while the push says OCI: the listing
             #  carries the media type the manifest was pushed with)
             body = image_manifest(desc(cmt, cfg), [], subject=subject, artifact_type=at or None, annotations=ann,
@@ -114,7 +116,7 @@ class W7(gen.World):
             if self.rng.random() < 0.8:
                 self.add(ref_walk(repo, s))
             if self.rng.random() < 0.5:
-                flt = self.rng.choice(ATS[:2] + [MT_EMPTY, MT_CFG, "nomatch"])
+                flt = self.rng.choice(ATS[:2] + [MT_EMPTY, MT_CFG, "nomatch"] + ODD)
                 self.add(ref_walk(repo, s, flt))
                 if self.rng.random() < 0.5:
                     self.add(ref_walk(repo, s, flt))       # served from the page cache
